@@ -29,7 +29,7 @@ def job_ops(job, plan):
     ops = [cr.create_line(job["cfg"]), "limit %d" % job["N"]]
     if rng.chance(.35):     # end-of-input signalled by in == NULL together with a non-zero (stale) ilen
         ops.append("stale %d" % rng.choice([1, 37, 300, 100000]))
-    ops.append("eoistyle %d" % rng.below(5))   # how end-of-input is said and how the drain calls look (harness/cr/trace.c after_end)
+    ops.append("eoistyle %d" % rng.below(6))   # how end-of-input is said and how the drain calls look (harness/cr/trace.c after_end)
     ops.append("nullout %d" % rng.below(2))    # a call that asks for 0 frames passes out == NULL (soxr.h allows it)
     style = rng.below(4)
     cap = [10 ** 9, 60, 3000, 10 ** 9][style]
@@ -40,7 +40,10 @@ def job_ops(job, plan):
         ops.append("feed %d %d %d" % (il, ol, rng.below(2)))
         if rng.chance(.25):
             ops.append("delay")
-    # whatever is left of the stream in one block, then drain
+    # whatever is left of the stream in one block (with `eoistyle 5` it carries the end-of-input mark: first offered a few times with
+    # an idone pointer and too little room, so that only part of the marked block is accepted), then drain
+    for i in range(rng.below(4)):
+        ops.append("feed %d %d 1" % (job["N"], rng.choice([1, 10, 100, 700])))
     ops.append("feed %d %d 0" % (job["N"], rng.choice(sizes)))
     est = int(job["N"] / cr.io_ratio(job["cfg"])) + 10
     ops.append("drain %d" % max(rng.choice([1, 7, 100, 1000, 5000, est]), est // 2000 + 1))
@@ -59,19 +62,23 @@ def oracle(job, tr):
     flushed = False
     drained_at = None
     olen = 0
+    cur = None
     for l in tr.lines:
         if l.startswith("> cr.proc"):
             t = l.split()
             has_in = t[2] == "1"
             olen = int(t[6])
+            cur = t
             if cr.signals_end(t):      # in == NULL, or the ~ilen mark on a block taken whole
                 flushed = True
         elif l.startswith("> cr.eoi"):                           # end-of-input by a call without buffers
-            flushed = True; olen = 0
+            flushed = True; olen = 0; cur = None
         elif l.startswith("< R "):
             r = cr.parse_kv(l)
             if "id" not in r:
                 continue
+            if cr.marked_whole(cur, r):
+                flushed = True
             fed += int(r["id"]); od = int(r["od"]); out += od
             if not flushed:
                 lim, _ = cr.ceil_exact(fed, cfg)
